@@ -29,7 +29,7 @@ from extractors import t17
 sys.path.insert(0, vlib.REPO)
 
 HEADER = """From Coq Require Import List String Ascii Bool.
-From C17 Require Import Model ProofsSort ProofsOptions ProofsFlags ProofsValues.
+From C17 Require Import Model ProofsSort ProofsOptions ProofsFlags ProofsValues ProofsDiscovery.
 From Gen Require Import Flags.
 Import ListNotations.
 Open Scope string_scope.
@@ -76,6 +76,10 @@ Definition spec5 (t : list (list key * changes)) : list nat :=
   flat_map (fun m => [encv (spec_resolve dflt [] [] pmo None m "x"); encv (spec_resolve dflt [] [] pmo None m "y");
                       b2n (fst (spec_code nocode nocode pmo None m "c")); b2n (snd (spec_code nocode nocode pmo None m "c"));
                       encv (spec_resolve dflt [] [] pmo None m "z")]) TMODS.
+Definition enc_found (r : option found) : nat :=
+  match r with None => 0 | Some (InTree d i) => 100 + 10 * d + i | Some (UserFile i) => 200 + i end.
+Definition A_ := FAbsent. Definition G_ := FPresent true true. Definition N_ := FPresent true false. Definition E_ := FPresent false false.
+Definition mkdir (fs : list fdesc) (root : bool) : dirdesc := (combine (map snd candidate_names) fs, root).
 Definition show_sp (s : string * (string * bool)) : string := fst s ++ " " ++ fst (snd s) ++ " " ++ (if snd (snd s) then "1" else "0").
 """
 
@@ -856,6 +860,97 @@ def translation_stage(ctx: vlib.Ctx, tmp: str) -> None:
     ctx.cov["translation_cases_rejected_as_conflicting"] = n_rej
     ctx.sample({"tables": cases[0], "pyproject": open(write_cfg(d, "pyproject.toml", {}, [(m if len(m) > 1 else m[0], RAW[j]) for m, j in cases[0]])).read()})
 
+
+# ------------------------------------------------------------------ C7: config-file discovery
+
+FILE_TEXT = {   # (state, kind) -> text ; state: G good, N no mypy table/section, E does not parse
+    ("G", "ini"): "[mypy]\n", ("N", "ini"): "[other]\nx = 1\n", ("E", "ini"): "x = 1\n[\n",
+    ("G", "toml"): "[tool.mypy]\n", ("N", "toml"): "[tool.other]\nx = 1\n", ("E", "toml"): "= bad\n",
+}
+
+
+def discovery_stage(ctx: vlib.Ctx, tmp: str) -> None:
+    from mypy import config_parser as CP
+    from mypy import defaults
+    names = defaults.CONFIG_NAMES + defaults.SHARED_CONFIG_NAMES
+    rng = vlib.Rng(ctx.seed, "discovery")
+    cases: list[tuple[list[tuple[str, bool]], str]] = []       # ([(states of the 4 names, has .git)] cwd first, user states)
+    for st in itertools.product("AGN", repeat=4):               # one directory, every presence set (incl. tables missing)
+        cases.append(([("".join(st), True)], "AA"))
+    presets = ["AAAA", "AANA", "AANG", "NAAA", "EAAG", "AGAA", "AAEN", "AAAG", "ENNA"]
+    for cwd, par in itertools.product(presets, repeat=2):
+        for rootpos in (0, 1, 2):
+            for user in ("AA", "AG", "GG", "EG"):
+                if ctx.quick and rng.random() < 0.6:
+                    continue
+                cases.append(([(cwd, rootpos == 0), (par, rootpos == 1)], user))
+    base = tempfile.mkdtemp(dir=tmp)
+    exprs = []
+    real: list[int] = []
+    old_user, old_cwd = defaults.USER_CONFIG_FILES, os.getcwd()
+    try:
+        for n, (dirs, user) in enumerate(cases):
+            top = os.path.join(base, f"k{n}", "grand")            # grand always holds .git: the walk never leaves the sandbox
+            chain = [top]
+            for _ in dirs:
+                chain.append(os.path.join(chain[-1], "d"))
+            paths = list(reversed(chain[1:]))                      # cwd first
+            os.makedirs(paths[0])
+            os.mkdir(os.path.join(top, ".git"))
+            for (st, root), dpath in zip(dirs, paths):
+                if root:
+                    os.mkdir(os.path.join(dpath, ".hg" if n % 2 else ".git"))
+                for name, c in zip(names, st):
+                    if c != "A":
+                        with open(os.path.join(dpath, name), "w") as f:
+                            f.write(FILE_TEXT[(c, "toml" if name.endswith(".toml") else "ini")])
+            ufiles = []
+            for k, c in enumerate(user):
+                up = os.path.join(base, f"k{n}", f"user{k}", "config" if k == 0 else ".mypy.ini")
+                os.makedirs(os.path.dirname(up))
+                if c != "A":
+                    with open(up, "w") as f:
+                        f.write(FILE_TEXT[(c, "ini")])
+                ufiles.append(up)
+            defaults.USER_CONFIG_FILES = ufiles               # instrumentation from outside: the module-level list
+            os.chdir(paths[0])
+            ret = CP._find_config_file(io.StringIO())
+            os.chdir(old_cwd)
+            if ret is None:
+                real.append(0)
+            else:
+                fr = os.path.normpath(os.path.join(paths[0], ret[2]))
+                if fr in ufiles:
+                    real.append(200 + ufiles.index(fr))
+                else:
+                    dpath, nm = os.path.split(fr)
+                    real.append(100 + 10 * (paths + [top]).index(dpath) + names.index(nm))
+            cd = lambda st, root: f"mkdir [{'; '.join(c + '_' for c in st)}] {'true' if root else 'false'}"   # noqa: E731
+            exprs.append("enc_found (find_config_file [" + "; ".join(cd(st, root) for st, root in dirs) + "; mkdir [A_; A_; A_; A_] true] ["
+                         + "; ".join(c + "_" for c in user) + "])")
+    finally:
+        defaults.USER_CONFIG_FILES = old_user
+        os.chdir(old_cwd)
+    hdr = HEADER.replace("%MODS%", "[]")
+    res = ctx.eval_cases("discovery", hdr, ["[" + "; ".join(exprs[k:k + 200]) + "]" for k in range(0, len(exprs), 200)])
+    if res is None:
+        return
+    model = [x for r in res for x in nums(r)]
+    bad = 0
+    for (dirs, user), m, r in zip(cases, model, real):
+        if m != r:
+            bad += 1
+            if bad <= 5:
+                ctx.broke("C", "_find_config_file vs find_config_file", f"dirs (cwd first; A absent G good N no table E unparsable; bool = has .git/.hg) {dirs} "
+                          f"user {user}: model {m} impl {r}  (1DN = depth D, candidate N; 20N = user file N; 0 = none)", {"dirs": dirs, "user": user})
+    if len(model) != len(real):
+        ctx.broke("C", "_find_config_file vs find_config_file", f"{len(model)} model results for {len(real)} cases")
+    ctx.add("evaluations", len(cases))
+    ctx.add("traces_validated_against_impl", len(cases))
+    ctx.cov["discovery_cases"] = len(cases)
+    ctx.cov["discovery_cases_finding_a_file"] = sum(1 for r in real if r)
+    ctx.sample({"discovery": cases[len(cases) // 2], "impl": real[len(cases) // 2]})
+
 # ------------------------------------------------------------------ S: diagnostics on witness programs
 
 # option -> (config key, value, CLI args, inline comment body, witness source)
@@ -1181,6 +1276,8 @@ def run(ctx: vlib.Ctx) -> None:
         ctx.log("C5 values / strict / inline done")
         translation_stage(ctx, tmp)
         ctx.log("C6 ini <-> pyproject translation done")
+        discovery_stage(ctx, tmp)
+        ctx.log("C7 config-file discovery done")
         if os.environ.get("C17_SKIP_S") == "1":      # development knob only (mutation experiments); never set by bin/check
             ctx.log("S diagnostics SKIPPED (C17_SKIP_S=1)")
         else:
